@@ -146,8 +146,13 @@ class Run:
             "violations": nviol,
         }
         os.makedirs(os.path.join(VERIF, "evidence"), exist_ok=True)
-        with open(os.path.join(VERIF, "evidence", self.prop + ".json"), "w") as fh:
+        # written to a private name and moved into place: two checks of one property running side by side must not
+        # interleave their output in one file
+        dst = os.path.join(VERIF, "evidence", self.prop + ".json")
+        tmp = "%s.%d.tmp" % (dst, os.getpid())
+        with open(tmp, "w") as fh:
             json.dump(ev, fh, indent=1)
+        os.replace(tmp, dst)
 
 
 def load_known():
